@@ -2,6 +2,7 @@
 
 Sibling agreement of the speculative executor with the interpreter (A-GEA), transactional roll-back,
 slot allocation of the level-1 renumbering, capture / residual / re-emission wiring."""
+import re
 from .cfg import CFG
 from .facts import callee_name
 from .gea import Seq, Star, Alt, DFA, compare, spec_nfa
@@ -389,6 +390,17 @@ def rule_slots(ctx, R):
                 other += 1
         if len(consts) == 1 and incs == 1 and other == 0 and consts[0] >= 2:
             m0 = (consts[0], b.lname(l))
+    # a private slot is the value of the counter *before* it is advanced (the advanced value is the shared slot)
+    stores = []
+    for bi, blk in enumerate(b.blocks):
+        if blk["cleanup"]:
+            continue
+        for si, st in enumerate(blk["stmts"]):
+            if st["k"] == "assign" and st["p"]["proj"] == ["deref"] and b.lty(st["p"]["l"]) == "&mut usize":
+                stores.append((roles.of_origin(org.of_rvalue(st["r"], bi, si)), st["span"]["at"]))
+    if R.anchor(len(stores) >= 2, "slot_stores", "stores into the slot map entries (found %d)" % len(stores)):
+        adv = [x for x in stores if x[0].startswith("(") and x[0].endswith(" Add K1)")]
+        R.check(not adv and all("LOOPVAR" in v or v.startswith("PHI(") for v, _ in stores), "optimize:slots:store_then_advance", "a slot map entry receives the current value of the slot counter; the counter is advanced afterwards (the advanced value is the shared slot): %s" % [v for v, _ in stores], (adv or stores)[0][1])
     # the state has one stack more than the highest private slot: the shared slot of the never-selected stacks exists
     news_ = [(bi, t) for bi, t in b.calls() if callee_name(t["f"], fb).endswith("OptState::new")]
     if R.anchor(len(news_) == 1 and m0 is not None, "optstate_new", "construction of the optimised state in optimize()"):
@@ -502,6 +514,12 @@ def rule_reemit(ctx, R):
         R.check(want == w, "run:reemit:stack%s" % k, "pre-computed contents of stack %s are written to the %s stream" % (k, want), t["span"]["at"], src[:160])
         # before the first execute of the residual program
         R.check(all(not reaches_without(cfg, [eb], bi) for eb, _ in execs), "run:reemit:before_exec:%s" % k, "re-emission of stack %s happens before the residual program runs" % k, t["span"]["at"])
+        # the block is entered exactly when that same stack is non-empty (or unconditionally)
+        from .util import dominating_edge_labels
+        evg = Events(b, fb, roles=roles)
+        labs = [l for l in dominating_edge_labels(cfg, b, evg, bi) if "Vec::is_empty(State::get_stack(" in l]
+        other = {"1": ",K2)", "2": ",K1)"}.get(k, "??")
+        R.check(not any(other in l for l in labs) and all(l.endswith("=0") for l in labs), "run:reemit:guard:%s" % k, "the re-emission of stack %s is entered when that stack (not the other one) is non-empty: %s" % (k, [l[-40:] for l in labs]), t["span"]["at"])
         n_ok += 1
     R.floor("reemit_writes", n_ok, 2, "re-emission writes for stacks 1 and 2")
     # cleared afterwards
@@ -540,3 +558,7 @@ RULES.append(("C02.LEVELS", "the level chosen on the command line selects the op
 
 
 RULES.append(("C02.INIT", "both state representations start identically: empty, stack 3 selected, no jump source (shared with C01.INIT)", p_c01.rule_init))
+
+
+RULES.append(("C02.REFARM", "the reference the levels are compared with: six arms of execute_one equal the language table (shared with C01.ARM)", p_c01.rule_arms))
+RULES.append(("C02.REFJUMP", "the reference the levels are compared with: area, label and ♡ rules of execute_one (shared with C01.JUMP)", p_c01.rule_area_jump))
